@@ -128,7 +128,13 @@ def extract(profile='dev', repo=REPO, packages=None, tag=None, need=None, featur
             fh.write(nonce)
         # prune old fact dirs
         fdir = os.path.join(WORK, 'facts')
-        ds = sorted((os.path.getmtime(os.path.join(fdir, d)), d) for d in os.listdir(fdir))
+        ds = []
+        for d in os.listdir(fdir):
+            try:
+                ds.append((os.path.getmtime(os.path.join(fdir, d)), d))
+            except OSError:
+                pass                          # (another process pruned it between the listing and the stat)
+        ds.sort()
         for mt, d in ds[:-12]:
             if time.time() - mt > 1800:      # never touch a directory another process may be filling
                 shutil.rmtree(os.path.join(fdir, d), ignore_errors=True)
